@@ -14,7 +14,7 @@ INVARIANTS InvImplEqualsRule InvPartition Export
 CHECK_DEADLOCK FALSE
 """
 ASSUMPTIONS = [
-    "Struct family: the 12 field shapes of spec/Unmarshal.tla (scalars, slices, maps, any, nested and pointer-to-struct, yaml:\"-\", untagged, flag-only and omitempty tags, alias lists) plus an inline map or inline struct; alias names are disjoint from all primary keys and from each other; no embedded fields (reflect.StructOf cannot build them).",
+    "Struct family: the 12 field shapes of spec/Unmarshal.tla (scalars, slices, maps, any, nested and pointer-to-struct, yaml:\"-\", untagged, flag-only and omitempty tags, alias lists) plus an inline map or inline struct; alias names are disjoint from all primary keys and from each other; embedded fields only as two hand-written targets (a struct embedded with the inline flag, exported and unexported type name; reflect.StructOf cannot build them), judged against yaml.v3.",
     "Documents are well-typed for the field that could consume each key; each key carries its own marker value.",
     "The yaml.v3 reference clause applies to zero-valued destinations of alias-free targets without an inline struct (yaml.v3 replaces pre-filled slices where this decoder appends, and does not fill an inline struct's leftovers the same way).",
 ]
@@ -23,7 +23,7 @@ ASSUMPTIONS = [
 def sig(ev):
     d = ev["c"]["desc"]
     keys = [p[0] for p in ev["c"]["doc"]]
-    return {"err": ev["err"], "panic": ev["panic"], "pre": ev["c"]["pre"], "fields": [f["name"] for f in d],
+    return {"err": ev["err"], "panic": ev["panic"], "pre": ev["c"]["pre"], "fields": [f["name"] for f in d], "embedded": ev.get("kind") == "embedded",
             "empty_key": "" in keys, "empty_items": any(p[0] == "items" and p[1] == {"t": "q", "e": []} for p in ev["c"]["doc"])}
 
 
@@ -57,6 +57,8 @@ def run(ctx, replay):
     for i, c in enumerate(cases):
         c["rot"] = i + ctx.seed
     traces, sums = vlib.drive_cases(ctx, "c16", cases, nchunks=8)
+    te, _ = vlib.drive_gen(ctx, "c16", 1, extra=["-embedded", "1"], tag="embedded")
+    traces += te
     n, bad = vlib.judge(ctx, "Trace_Unmarshal", traces, timeout=3000)
     vlib.report_bad(ctx, bad, sig, desc, lambda ev: {"cases": [ev["c"]], "event": {k: ev[k] for k in ev if k != "c"}},
                     vlib.confirm_by_cases(ctx, "c16", "Trace_Unmarshal"))
